@@ -218,6 +218,66 @@ func TestC17(t *testing.T) {
 		c.Event("lookups", n)
 	})
 
+	// (a') the decoder resolves through the same rule: an AVP on the wire with code c, with or
+	//      without the V bit, is decoded with the type of the definition that the lookup for
+	//      (application, c, exact vendor - 0 without the V bit) yields, or as opaque data
+	for ci, ctx := range ctxs {
+		ctx := ctx
+		defs := ctx.Set.AVPs()
+		apps := []uint32{0, 1, 4, 16777238, 16777251, 16777236, 8388001, 7}
+		rec.Suite(fmt.Sprintf("decode-resolution/%d", ci), len(defs), func(c *ev.Case) {
+			d := defs[c.I]
+			n := 0
+			for _, app := range apps {
+				for _, v := range [][2]uint32{{0, 0}, {1, d.Vendor}, {1, 31337}} {
+					hasV, vendor := v[0] == 1, v[1]
+					if hasV && vendor == 0 {
+						continue
+					}
+					want := ctx.TypeFunc(app)(d.Code, vendor, hasV)
+					payload := map[refcodec.Kind][]byte{refcodec.Unsigned32: {0, 0, 0, 7}, refcodec.Integer32: {0, 0, 0, 7}, refcodec.Float32: {0, 0, 0, 0}, refcodec.Enumerated: {0, 0, 0, 1},
+						refcodec.Time: {0xe0, 0, 0, 0}, refcodec.IPv4: {10, 0, 0, 1}, refcodec.Unsigned64: {0, 0, 0, 0, 0, 0, 0, 7}, refcodec.Integer64: {0, 0, 0, 0, 0, 0, 0, 7},
+						refcodec.Float64: {0, 0, 0, 0, 0, 0, 0, 0}, refcodec.IPv6: {0x20, 1, 0xd, 0xb8, 0, 0, 0, 0, 0, 0, 0, 0, 0, 0, 0, 1}, refcodec.Address: {0, 1, 10, 0, 0, 1}, refcodec.Grouped: {}}[want]
+					if payload == nil {
+						payload = []byte("x")
+					}
+					flags := uint8(0x40)
+					if hasV {
+						flags |= 0x80
+					}
+					hl := 8
+					if hasV {
+						hl = 12
+					}
+					raw := append(rawHeader(d.Code, flags, vendor, hl+len(payload)), payload...)
+					for len(raw)%4 != 0 {
+						raw = append(raw, 0)
+					}
+					var a *diam.AVP
+					var err error
+					if p, bad := guard(func() { a, err = diam.DecodeAVP(raw, app, ctx.Parser) }); bad {
+						c.Fail(ev.Sig{"op": "lookup", "form": "decode"}, raw, nil, "DecodeAVP panicked: %s", p)
+						return
+					}
+					if err != nil {
+						c.Fail(ev.Sig{"op": "lookup", "form": "decode"}, raw, nil, "dict %s, app %d: AVP code %d V=%v vendor %d with a payload valid for the type the lookup yields (%v) was refused: %v", ctx.Name, app, d.Code, hasV, vendor, want, err)
+						return
+					}
+					nd, err := lib.ToNode(a)
+					if err != nil || nd.Kind != want {
+						c.Fail(ev.Sig{"op": "lookup", "form": "decode"}, raw, nil, "dict %s, app %d: AVP code %d V=%v vendor %d was decoded as %v, the lookup through the application, its parents and base (exact vendor) yields %v (err=%v)", ctx.Name, app, d.Code, hasV, vendor, nd.Kind, want, err)
+						return
+					}
+					n++
+				}
+			}
+			c.Class("decode-resolution/%s/type=%s", ctx.Name, d.Type)
+			c.Event("lookups", n)
+			c.Event("decode_resolutions", n)
+		})
+		rec.Exhaustive(fmt.Sprintf("decode-resolution/%d", ci))
+	}
+
 	// (b) generated dictionary sets loaded in every order; monotonicity
 	rec.Suite("generated-sets", rec.N(150, 60000), func(c *ev.Case) { generatedSet(c) })
 
